@@ -129,6 +129,9 @@ class FrameItem(EFLRItem):
             if index_data.ndim != 1:
                 raise RuntimeError(f"Index channel's data must be 1-dimensional; got {index_data.ndim} dimensions "
                                    f"for {index_channel} of {self}")
+            if index_data.shape[0] < 2:
+                return  # a single row has neither spacing nor direction (the median of no differences is NaN)
+
             spacing, direction = self._compute_spacing_and_direction(index_data)
 
             if spacing is None:
